@@ -1,1 +1,296 @@
-// Correspondence suites for property C01. Each suite is a #[test] fn named verif_c01_<suite>.
+// Correspondence suites for property C01 (hybrid attribution = in-the-clear reference).
+//
+// Request grammar:
+//   c01.e2e <sh|mal> <shards> <pad 0|1> <inst> <assign> <records>
+//     inst    : prod  = hybrid_protocol::<_, BA8, BA3, BA32, 3, 256>   (the instantiation of Query::execute)
+//               small = hybrid_protocol::<_, BA8, BA3, BA8, 3, 256>    (narrow output: buckets saturate at 255)
+//     assign  : comma list, shard index of every record ("-" for none)
+//     records : comma list of  i:<mk>:<bk>  (impression)  |  c:<mk>:<v>  (conversion)   ("-" for none)
+//   response: the reconstructed histogram of the leader shard `h0,h1,…`, or `err:<kind>`, `timeout`, `panic:…`.
+use std::sync::Mutex;
+
+use super::proto::*;
+use crate::{
+    error::Error,
+    ff::{
+        U128Conversions,
+        boolean_array::{BA3, BA5, BA8, BA32},
+    },
+    helpers::query::DpMechanism,
+    protocol::{
+        hybrid::hybrid_protocol,
+        ipa_prf::oprf_padding::{AggregationPadding, OPRFPadding, PaddingParameters},
+    },
+    report::hybrid::{HybridReport, IndistinguishableHybridReport},
+    secret_sharing::replicated::semi_honest::AdditiveShare as Replicated,
+    test_fixture::{
+        Distribute, Reconstruct, Runner, TestWorld, TestWorldConfig, WithShards,
+        hybrid::TestHybridRecord,
+    },
+};
+
+/// Shard assignment used by `Scripted::distribute` (set before each run; runs are sequential).
+static ASSIGN: Mutex<Vec<usize>> = Mutex::new(Vec::new());
+
+pub struct Scripted;
+
+impl Distribute for Scripted {
+    fn distribute<const SHARDS: usize, A>(input: Vec<A>) -> [Vec<A>; SHARDS] {
+        let assign = ASSIGN.lock().unwrap_or_else(|e| e.into_inner()).clone();
+        let mut r: [Vec<A>; SHARDS] = std::array::from_fn(|_| Vec::new());
+        for (i, share) in input.into_iter().enumerate() {
+            r[assign[i] % SHARDS].push(share);
+        }
+        r
+    }
+}
+
+pub fn parse_records(s: &str) -> Vec<TestHybridRecord> {
+    if s == "-" {
+        return vec![];
+    }
+    s.split(',')
+        .map(|r| {
+            let p: Vec<&str> = r.split(':').collect();
+            let mk: u64 = p[1].parse().unwrap();
+            let x: u32 = p[2].parse().unwrap();
+            match p[0] {
+                "i" => TestHybridRecord::TestImpression { match_key: mk, breakdown_key: x, key_id: 0 },
+                "c" => TestHybridRecord::TestConversion {
+                    match_key: mk,
+                    value: x,
+                    key_id: 0,
+                    conversion_site_domain: "meta.com".to_string(),
+                    timestamp: 100,
+                    epsilon: 0.0,
+                    sensitivity: 0.0,
+                },
+                k => panic!("harness: bad record kind {k}"),
+            }
+        })
+        .collect()
+}
+
+pub fn small_padding() -> PaddingParameters {
+    // cheap but non-trivial padding: a handful of dummy rows per pass
+    PaddingParameters {
+        aggregation_padding: AggregationPadding::Parameters {
+            aggregation_epsilon: 10.0,
+            aggregation_delta: 1e-2,
+            aggregation_padding_sensitivity: 2,
+        },
+        oprf_padding: OPRFPadding::Parameters {
+            oprf_epsilon: 10.0,
+            oprf_delta: 1e-2,
+            matchkey_cardinality_cap: 3,
+            oprf_padding_sensitivity: 2,
+        },
+    }
+}
+
+fn err_kind(e: &Error) -> String {
+    let d = format!("{e:?}");
+    let k: String = d.chars().take_while(|c| c.is_alphanumeric() || *c == '_').collect();
+    format!("err:{k}")
+}
+
+macro_rules! run_inst {
+    ($shards:literal, $seed:expr, $mal:expr, $pad:expr, $records:expr, $BK:ty, $V:ty, $HV:ty, $SS:literal, $B:literal) => {{
+        let records: Vec<TestHybridRecord> = $records;
+        let pad: PaddingParameters = $pad;
+        let secs = if !matches!(pad.oprf_padding, OPRFPadding::NoOPRFPadding) { 240 } else if records.len() <= 8 { 6 } else { 120 };
+        let mut config = TestWorldConfig::default().with_timeout_secs(secs);
+        config.seed = $seed;
+        let world = TestWorld::<WithShards<$shards, Scripted>>::with_shards(config);
+        let inputs = records.into_iter();
+        let results: Vec<[Result<Vec<Replicated<$HV>>, Error>; 3]> = if $mal {
+            world
+                .malicious(inputs, |ctx, input: Vec<HybridReport<$BK, $V>>| async move {
+                    let rows: Vec<IndistinguishableHybridReport<$BK, $V>> = input.into_iter().map(Into::into).collect();
+                    hybrid_protocol::<_, $BK, $V, $HV, $SS, $B>(ctx, rows, DpMechanism::NoDp, pad).await
+                })
+                .await
+        } else {
+            world
+                .semi_honest(inputs, |ctx, input: Vec<HybridReport<$BK, $V>>| async move {
+                    let rows: Vec<IndistinguishableHybridReport<$BK, $V>> = input.into_iter().map(Into::into).collect();
+                    hybrid_protocol::<_, $BK, $V, $HV, $SS, $B>(ctx, rows, DpMechanism::NoDp, pad).await
+                })
+                .await
+        };
+        // any error anywhere is the outcome
+        let mut out: Option<String> = None;
+        for shard in &results {
+            for r in shard {
+                if let Err(e) = r {
+                    out.get_or_insert(err_kind(e));
+                }
+            }
+        }
+        match out {
+            Some(e) => e,
+            None => {
+                let leader = &results[0];
+                let h: Vec<$HV> = [
+                    leader[0].as_ref().unwrap().clone(),
+                    leader[1].as_ref().unwrap().clone(),
+                    leader[2].as_ref().unwrap().clone(),
+                ]
+                .reconstruct();
+                let mut resp = nat_list(&h.iter().map(|x| x.as_u128()).collect::<Vec<_>>());
+                // follower shards must return an empty histogram
+                for (i, shard) in results.iter().enumerate().skip(1) {
+                    for r in shard {
+                        if !r.as_ref().unwrap().is_empty() {
+                            resp = format!("follower-nonempty:{i}");
+                        }
+                    }
+                }
+                resp
+            }
+        }
+    }};
+}
+
+macro_rules! by_shards {
+    ($shards:expr, $($rest:tt)*) => {
+        match $shards {
+            1 => run_inst!(1, $($rest)*),
+            2 => run_inst!(2, $($rest)*),
+            3 => run_inst!(3, $($rest)*),
+            5 => run_inst!(5, $($rest)*),
+            n => panic!("harness: unsupported shard count {n}"),
+        }
+    };
+}
+
+pub fn exec(req: &str) -> String {
+    let t: Vec<&str> = req.split(' ').collect();
+    match t[0] {
+        "c01.e2e" => {
+            let mal = t[1] == "mal";
+            let shards: usize = t[2].parse().unwrap();
+            let pad = if t[3] == "1" { small_padding() } else if t[3] == "2" { PaddingParameters::default() } else { PaddingParameters::no_padding() };
+            let assign: Vec<usize> = parse_nat_list(t[5]);
+            let records = parse_records(t[6]);
+            assert_eq!(assign.len(), records.len(), "harness: one shard index per record");
+            *ASSIGN.lock().unwrap_or_else(|e| e.into_inner()) = assign;
+            let inst = t[4].to_string();
+            // PRSS / input-sharing randomness of the test world derives from the request line
+            let seed = req.bytes().fold(0xcbf2_9ce4_8422_2325u64, |h, b| (h ^ u64::from(b)).wrapping_mul(0x0000_0100_0000_01B3));
+            let r = block_on_timeout(300, async move {
+                match inst.as_str() {
+                    "prod" => by_shards!(shards, seed, mal, pad, records, BA8, BA3, BA32, 3, 256),
+                    "small" => by_shards!(shards, seed, mal, pad, records, BA8, BA3, BA8, 3, 256),
+                    i => panic!("harness: unknown instantiation {i}"),
+                }
+            });
+            match r {
+                Ok(s) => s,
+                Err(e) => e,
+            }
+        }
+        _ => panic!("harness: unknown request {req}"),
+    }
+}
+
+pub fn rec_str(recs: &[(char, u64, u32)]) -> String {
+    if recs.is_empty() {
+        return "-".into();
+    }
+    recs.iter().map(|(k, mk, x)| format!("{k}:{mk}:{x}")).collect::<Vec<_>>().join(",")
+}
+
+/// A structured multiset: attributed pairs, duplicates, triples, lone impressions/conversions,
+/// colliding breakdown sums, double conversions (bucket 0), double impressions.
+pub fn gen_records(rng: &mut Rng, n_keys: usize, max_bk: u32, max_v: u32) -> Vec<(char, u64, u32)> {
+    let mut recs = vec![];
+    for _ in 0..n_keys {
+        let mk = rng.next_u64() >> rng.below(40);
+        let bk = rng.below(u64::from(max_bk)) as u32;
+        let v = rng.below(u64::from(max_v)) as u32;
+        let bk2 = rng.below(u64::from(max_bk)) as u32;
+        let v2 = rng.below(u64::from(max_v)) as u32;
+        match rng.below(12) {
+            0..=4 => { recs.push(('i', mk, bk)); recs.push(('c', mk, v)); }
+            5 => recs.push(('i', mk, bk)),
+            6 => recs.push(('c', mk, v)),
+            7 => { recs.push(('c', mk, v)); recs.push(('c', mk, v2)); }
+            8 => { recs.push(('i', mk, bk)); recs.push(('i', mk, bk2)); }
+            9 => { recs.push(('i', mk, bk)); recs.push(('c', mk, v)); recs.push(('c', mk, v2)); }
+            10 => { recs.push(('c', mk, v)); recs.push(('i', mk, bk)); }
+            _ => { recs.push(('i', mk, max_bk - 1)); recs.push(('c', mk, max_v - 1)); }
+        }
+    }
+    rng.shuffle(&mut recs);
+    recs
+}
+
+fn assign_str(rng: &mut Rng, n: usize, shards: usize, style: u64) -> String {
+    let a: Vec<usize> = (0..n)
+        .map(|i| match style {
+            0 => i % shards,                    // round robin
+            1 => rng.usize_below(shards),       // random
+            2 => 0,                             // everything on the leader shard
+            _ => shards - 1 - (i % shards),     // reversed round robin
+        })
+        .collect();
+    nat_list(&a)
+}
+
+#[test]
+fn verif_c01_e2e() {
+    run_suite(
+        "c01_e2e",
+        |rng, thorough| {
+            let mut out = vec![];
+            // --- single shard, both modes, no padding: small structured inputs incl. corner multisets
+            out.push("c01.e2e sh 1 0 prod - -".to_string());
+            for mode in ["sh", "mal"] {
+                // one attributed pair; colliding breakdown sums; wrap of value (7+7 mod 8) and of key (BA8: 200+100 mod 256 via two impressions)
+                out.push(format!("c01.e2e {mode} 1 0 prod 0,0 i:5:3,c:5:4"));
+                out.push(format!("c01.e2e {mode} 1 0 prod 0,0,0,0 c:9:7,c:9:7,i:8:200,i:8:100"));
+                out.push(format!("c01.e2e {mode} 1 0 prod 0,0,0,0,0,0,0 i:1:2,c:1:3,i:2:2,c:2:4,c:3:1,c:3:1,c:3:1"));
+            }
+            // only impressions / only conversions / a single record: nothing is attributed
+            out.push("c01.e2e sh 1 0 prod 0,0,0 i:1:1,i:2:2,i:3:3".to_string());
+            out.push("c01.e2e mal 1 0 prod 0,0 c:1:1,c:2:2".to_string());
+            out.push("c01.e2e sh 1 0 prod 0 i:1:1".to_string());
+            // saturation at the output width: small instantiation, 40 pairs of value sum 7 in bucket 3 (280 > 255)
+            {
+                let mut recs = vec![];
+                for k in 0..40u64 {
+                    recs.push(('i', 1000 + k, 3));
+                    recs.push(('c', 1000 + k, 7));
+                }
+                recs.push(('i', 7, 4));
+                recs.push(('c', 7, 5));
+                let a = nat_list(&vec![0usize; recs.len()]);
+                out.push(format!("c01.e2e sh 1 0 small {a} {}", rec_str(&recs)));
+                let a2 = nat_list(&(0..recs.len()).map(|i| i % 2).collect::<Vec<_>>());
+                out.push(format!("c01.e2e mal 2 0 small {a2} {}", rec_str(&recs)));
+            }
+            // --- known finding F8 witnesses: a shard that enters with no rows (2 shards, everything on shard 0)
+            out.push("c01.e2e sh 2 0 prod 0,0,0,0 i:1:2,c:1:3,i:2:2,c:2:4".to_string());
+            out.push("c01.e2e mal 2 0 prod 0,0,0,0 i:1:2,c:1:3,i:2:2,c:2:4".to_string());
+            // --- random structured multisets
+            let n_runs = if thorough { 60 } else { 8 };
+            for i in 0..n_runs {
+                let shards = if i < 4 { [1usize, 2, 3, 5][i] } else { *rng.pick(&[1usize, 2, 3, 5]) };
+                let mode = if rng.bool() { "sh" } else { "mal" };
+                let pad = if i % 3 == 2 { 1 } else { 0 };
+                let inst = if i % 4 == 3 { "small" } else { "prod" };
+                let (max_bk, max_v) = (256, 8);
+                // enough keys that no shard is left without rows or pairs at any stage (known finding F8)
+                // except with negligible probability (about 15 pairs per shard, placed by the PRF)
+                let n_keys = 30 * shards + rng.usize_below(10);
+                let recs = gen_records(rng, n_keys, max_bk, max_v);
+                let style = rng.below(2);
+                let a = assign_str(rng, recs.len(), shards, style);
+                out.push(format!("c01.e2e {mode} {shards} {pad} {inst} {a} {}", rec_str(&recs)));
+            }
+            out
+        },
+        exec,
+    );
+}
